@@ -1,6 +1,8 @@
 package monitor
 
 import (
+	"crypto/sha256"
+	"encoding/hex"
 	"math/big"
 	"strconv"
 	"strings"
@@ -311,8 +313,16 @@ func (s *State) BalOf(holder, denom string) *big.Int {
 func acctOf(tok string) string { return strings.ToLower(tok) }
 
 // hexOfAcct gives the 0x-40-hex address of account tokens a0..a9 (byte i+1 repeated).
+// moduleName: the module account behind the tokens mdistr / mpool / mcollector
+var moduleName = map[string]string{"mdistr": "distribution", "mpool": "oracle", "mcollector": "fee_collector"}
+
 func hexOfAcct(tok string) string {
 	t := strings.ToLower(tok)
+	if m, ok := moduleName[t]; ok {
+		// a module account's address is the first 20 bytes of the SHA-256 of its name
+		h := sha256.Sum256([]byte(m))
+		return "0x" + hex.EncodeToString(h[:20])
+	}
 	if len(t) < 2 || t[0] != 'a' {
 		return ""
 	}
